@@ -304,6 +304,80 @@ func c02Deferred(c *Ctx) {
 			scope = append(scope, g)
 		}
 	}
+	checkQueued := func(val ssa.Value, at ssa.Instruction) {
+		// a Seek(0, io.SeekStart) on the same value dominates the store
+		rewound := false
+		var names []string
+		var vals []ssa.Value
+		for _, src := range sourcesOf(val) {
+			vals = append(vals, src)
+			// the buffer variable may live in a cell (captured by the
+			// release closure): every load of the cell denotes the buffer
+			if cell, isCell := src.(*ssa.Alloc); isCell {
+				for _, r := range *cell.Referrers() {
+					if u, ok := r.(*ssa.UnOp); ok && u.Op == token.MUL {
+						vals = append(vals, u)
+					}
+				}
+			}
+		}
+		for _, src := range vals {
+			refs := src.Referrers()
+			if refs == nil {
+				continue
+			}
+			for _, r := range *refs {
+				call, isCall := r.(ssa.CallInstruction)
+				if !isCall {
+					continue
+				}
+				cc := call.Common()
+				if !cc.IsInvoke() || cc.Method.Name() != "Seek" || len(cc.Args) != 2 {
+					continue
+				}
+				names = append(names, "Seek")
+				o, ok1 := cc.Args[0].(*ssa.Const)
+				w, ok2 := cc.Args[1].(*ssa.Const)
+				if ok1 && ok2 && o.Int64() == 0 && w.Int64() == 0 && dominates(call.(ssa.Instruction), at) {
+					// … and nothing is written into the buffer between the rewind and
+					// the moment it is queued (a rewind before the buffer is filled
+					// leaves it positioned at its end)
+					touched := false
+					for _, src2 := range vals {
+						if src2.Referrers() == nil {
+							continue
+						}
+						var users []ssa.Instruction
+						for _, r2 := range *src2.Referrers() {
+							users = append(users, r2)
+							// handed over as another interface (io.Writer)
+							if ci, ok := r2.(*ssa.ChangeInterface); ok {
+								users = append(users, *ci.Referrers()...)
+							}
+							if mi, ok := r2.(*ssa.MakeInterface); ok {
+								users = append(users, *mi.Referrers()...)
+							}
+						}
+						for _, r2 := range users {
+							c2, isCall := r2.(ssa.CallInstruction)
+							if !isCall || c2 == call {
+								continue
+							}
+							i2 := c2.(ssa.Instruction)
+							if dominates(call.(ssa.Instruction), i2) && dominates(i2, at) && i2 != at {
+								touched = true
+							}
+						}
+					}
+					if !touched {
+						rewound = true
+					}
+				}
+			}
+		}
+		sort.Strings(names)
+		c.Check(rule, "writeRowGroup: deferred bloom filter buffer #"+itoa(n-1)+" rewound before it is queued", at.Pos(), rewound, "a buffer holding a deferred bloom filter is queued without Seek(0, io.SeekStart): Close copies from the current position (the end), writes zero filter bytes and records a length of 0 at an offset that holds other data")
+	}
 	for _, g := range scope {
 		allInstrs(g, false, func(_ *ssa.Function, ins ssa.Instruction) {
 			st, ok := ins.(*ssa.Store)
@@ -315,79 +389,24 @@ func c02Deferred(c *Ctx) {
 				return
 			}
 			_ = root
+			// the buffer may be handed to a helper that queues it: the rewind is
+			// then the business of the callers of the helper
+			if par, isPar := st.Val.(*ssa.Parameter); isPar && g.Parent() == nil {
+				for pi, q := range g.Params {
+					if q != par {
+						continue
+					}
+					for _, cs := range callersOf(p, g) {
+						if pi < len(cs.Common().Args) {
+							n++
+							checkQueued(cs.Common().Args[pi], cs.(ssa.Instruction))
+						}
+					}
+				}
+				return
+			}
 			n++
-			// a Seek(0, io.SeekStart) on the same value dominates the store
-			rewound := false
-			var names []string
-			var vals []ssa.Value
-			for _, src := range sourcesOf(st.Val) {
-				vals = append(vals, src)
-				// the buffer variable may live in a cell (captured by the
-				// release closure): every load of the cell denotes the buffer
-				if cell, isCell := src.(*ssa.Alloc); isCell {
-					for _, r := range *cell.Referrers() {
-						if u, ok := r.(*ssa.UnOp); ok && u.Op == token.MUL {
-							vals = append(vals, u)
-						}
-					}
-				}
-			}
-			for _, src := range vals {
-				refs := src.Referrers()
-				if refs == nil {
-					continue
-				}
-				for _, r := range *refs {
-					call, isCall := r.(ssa.CallInstruction)
-					if !isCall {
-						continue
-					}
-					cc := call.Common()
-					if !cc.IsInvoke() || cc.Method.Name() != "Seek" || len(cc.Args) != 2 {
-						continue
-					}
-					names = append(names, "Seek")
-					o, ok1 := cc.Args[0].(*ssa.Const)
-					w, ok2 := cc.Args[1].(*ssa.Const)
-					if ok1 && ok2 && o.Int64() == 0 && w.Int64() == 0 && dominates(call.(ssa.Instruction), st) {
-						// … and nothing is written into the buffer between the rewind and
-						// the moment it is queued (a rewind before the buffer is filled
-						// leaves it positioned at its end)
-						touched := false
-						for _, src2 := range vals {
-							if src2.Referrers() == nil {
-								continue
-							}
-							var users []ssa.Instruction
-							for _, r2 := range *src2.Referrers() {
-								users = append(users, r2)
-								// handed over as another interface (io.Writer)
-								if ci, ok := r2.(*ssa.ChangeInterface); ok {
-									users = append(users, *ci.Referrers()...)
-								}
-								if mi, ok := r2.(*ssa.MakeInterface); ok {
-									users = append(users, *mi.Referrers()...)
-								}
-							}
-							for _, r2 := range users {
-								c2, isCall := r2.(ssa.CallInstruction)
-								if !isCall || c2 == call {
-									continue
-								}
-								i2 := c2.(ssa.Instruction)
-								if dominates(call.(ssa.Instruction), i2) && dominates(i2, st) {
-									touched = true
-								}
-							}
-						}
-						if !touched {
-							rewound = true
-						}
-					}
-				}
-			}
-			sort.Strings(names)
-			c.Check(rule, "writeRowGroup: deferred bloom filter buffer #"+itoa(n-1)+" rewound before it is queued", st.Pos(), rewound, "a buffer holding a deferred bloom filter is queued without Seek(0, io.SeekStart): Close copies from the current position (the end), writes zero filter bytes and records a length of 0 at an offset that holds other data")
+			checkQueued(st.Val, st)
 		})
 	}
 	c.Check(rule, "writeRowGroup queues deferred bloom filters", fn.Pos(), n >= 2, "expected the two deferral sites (encoded and copied chunks)")
